@@ -16,7 +16,7 @@ package ss2022
 //@ func NewSlidingWindowFilter
 //@   requires size >= 1 && size <= 1 << 32
 //@   modifies nothing
-//@   ensures fresh(result) && swfWF(result) && result.size == size && result.last == 0
+//@   ensures fresh(result) && fresh(result.ring) && swfWF(result) && result.size == size && result.last == 0
 //@   ensures forall c uint64 :: !swfBit(result, c)
 
 //@ func (*SlidingWindowFilter).Size
@@ -169,3 +169,48 @@ package ss2022
 //@   modifies nothing
 //@   ensures isnil(err) ==> b[0] == 1 && tsValid(int64(be64(b[1:])), now) && be64(b[9:]) == csid
 //@   ensures isnil(err) ==> 0 <= payloadStart && 0 <= payloadLen && payloadStart + payloadLen == len(b)
+
+// ---------------------------------------------------------------------------
+// UDP unpackers (properties C04, C05, C06): bounds, and the replay filter is touched only after the packet
+// authenticated and its header validated.
+// ---------------------------------------------------------------------------
+
+//@ pure swfOptWF(f *SlidingWindowFilter) bool = !isnil(f) ==> swfWF(f)
+
+//@ func (*ShadowPacketServerUnpacker).UnpackInPlace
+//@   requires 0 <= packetStart && 0 <= packetLen && packetStart <= len(b) && packetLen <= len(b) && packetStart + packetLen <= len(b)
+//@   requires p.nonAEADHeaderLen >= 16 && p.nonAEADHeaderLen <= 1 << 20
+//@   requires swfOptWF(p.filter) && p.filterSize >= 1 && p.filterSize <= 1 << 32
+//@   requires socks5.dcWF(addr(p.domainCache))
+//@   ensures !isnil(err) ==> p.filter == old(p.filter)
+//@   ensures !isnil(err) && !isnil(old(p.filter)) ==> p.filter.last == old(p.filter.last) && unchanged(p.filter.ring[*])
+//@   ensures isnil(err) ==> !isnil(p.filter) && swfWF(p.filter) && swfBit(p.filter, old(be64(b[packetStart + 8:])))
+//@   ensures isnil(err) && !isnil(old(p.filter)) ==> p.filter == old(p.filter) && (old(be64(b[packetStart + 8:])) > old(p.filter.last) || (old(p.filter.last) - old(be64(b[packetStart + 8:])) < p.filter.size && !old(swfBit(p.filter, be64(b[packetStart + 8:])))))
+//@   ensures isnil(err) ==> payloadStart >= packetStart + p.nonAEADHeaderLen && payloadLen >= 0 && payloadStart + payloadLen + 16 == packetStart + packetLen
+//@   ensures isnil(err) ==> conn.AddrWF(targetAddr) && targetAddr.IsValid()
+
+// Key derivation (BLAKE3 + AES) is outside the verifier's reach: trusted, results unconstrained.
+//@ func (UserCipherConfig).AEAD
+//@   trusted
+//@   modifies nothing
+//@ func (UserCipherConfig).Block
+//@   trusted
+//@   modifies nothing
+
+//@ pure spcuSessionsUnchanged(p *ShadowPacketClientUnpacker) bool = unchanged(p.currentServerSessionID, p.currentServerSessionAEAD, p.currentServerSessionFilter, p.oldServerSessionID, p.oldServerSessionAEAD, p.oldServerSessionFilter, p.oldServerSessionLastSeenTime)
+
+//@ func (*ShadowPacketClientUnpacker).UnpackInPlace
+//@   requires 0 <= packetStart && 0 <= packetLen && packetStart <= len(b) && packetLen <= len(b) && packetStart + packetLen <= len(b)
+//@   requires swfOptWF(p.currentServerSessionFilter) && swfOptWF(p.oldServerSessionFilter) && p.filterSize >= 1 && p.filterSize <= 1 << 32
+//@   requires !isnil(p.currentServerSessionAEAD) ==> !isnil(p.currentServerSessionFilter)
+//@   requires !isnil(p.oldServerSessionAEAD) ==> !isnil(p.oldServerSessionFilter)
+//@   requires !isnil(p.currentServerSessionFilter) && !isnil(p.oldServerSessionFilter) ==> p.currentServerSessionFilter != p.oldServerSessionFilter && !samearray(p.currentServerSessionFilter.ring, p.oldServerSessionFilter.ring)
+//@   ensures isnil(err) && !isnil(p.currentServerSessionFilter) && !isnil(p.oldServerSessionFilter) ==> p.currentServerSessionFilter != p.oldServerSessionFilter && !samearray(p.currentServerSessionFilter.ring, p.oldServerSessionFilter.ring)
+//@   ensures !isnil(err) ==> spcuSessionsUnchanged(p)
+//@   ensures !isnil(err) && !isnil(old(p.currentServerSessionFilter)) ==> p.currentServerSessionFilter.last == old(p.currentServerSessionFilter.last) && unchanged(p.currentServerSessionFilter.ring[*])
+//@   ensures !isnil(err) && !isnil(old(p.oldServerSessionFilter)) ==> p.oldServerSessionFilter.last == old(p.oldServerSessionFilter.last) && unchanged(p.oldServerSessionFilter.ring[*])
+//@   ensures isnil(err) ==> swfOptWF(p.currentServerSessionFilter) && swfOptWF(p.oldServerSessionFilter)
+//@   ensures isnil(err) ==> (!isnil(p.currentServerSessionAEAD) ==> !isnil(p.currentServerSessionFilter)) && (!isnil(p.oldServerSessionAEAD) ==> !isnil(p.oldServerSessionFilter))
+//@   ensures isnil(err) && p.currentServerSessionFilter != old(p.currentServerSessionFilter) ==> p.oldServerSessionID == old(p.currentServerSessionID) && p.oldServerSessionFilter == old(p.currentServerSessionFilter) && p.oldServerSessionAEAD == old(p.currentServerSessionAEAD) && p.currentServerSessionID == be64(b[packetStart:]) && fresh(p.currentServerSessionFilter)
+//@   ensures isnil(err) && p.currentServerSessionFilter == old(p.currentServerSessionFilter) ==> p.currentServerSessionID == old(p.currentServerSessionID) && p.oldServerSessionID == old(p.oldServerSessionID) && p.oldServerSessionFilter == old(p.oldServerSessionFilter)
+//@   ensures isnil(err) ==> payloadStart >= packetStart + 16 && payloadLen >= 0 && payloadStart + payloadLen + 16 == packetStart + packetLen
